@@ -5,7 +5,7 @@ CONSTANTS
  MCShapes = {"img", "dup", "idx2", "nested", "art", "artidx", "bentry", "docker", "schema1", "ext", "empty", "inline", "dtag", "loop"}
  MCPairs = {"tworeg", "samereg", "samerepo", "reg2dir", "dir2reg", "dir2dir"}
  MCOpts <- MCOptsDefault
- MCFeats <- MCFeatsMount
+ MCFeats <- MCFeatsMount3
  MCInit = "corners"
  MCTag0 = {"none", "stale", "same"}
  MCByDigest = {FALSE}
